@@ -32,6 +32,21 @@ EXEMPT_WRITERS = {
     "piquasso.api.instruction:Instruction._resolve_params": "the designated temporary overwrite; paired with _unresolve_params and decided under C12a",
     "piquasso.api.instruction:Instruction._unresolve_params": "the designated restore; decided under C12a",
     "piquasso.core._mixins:WeightMixin.__mul__": "operator overload that scales the preparation's own coefficient at construction time (by design, DESIGN E3)",
+    "piquasso.api.instruction:Instruction._apply_to_program_on_register": "registration API: appending to the program being built is its purpose",
+    "piquasso.api.program:Program._apply_to_program_on_register": "registration API (appends copies to the enclosing program)",
+    "piquasso.api.program:Program.load_blackbird": "construction API: extends the program it is called on, as documented",
+    "piquasso.api.program:Program.loads_blackbird": "construction API: extends the program it is called on, as documented",
+    "piquasso.api.program:Program.__init__": "constructor",
+}
+# user-owned arguments of the public execution / validation / export entry points
+USER_PARAMS = {
+    "piquasso.api.simulator:Simulator.execute": ("program", "initial_state"),
+    "piquasso.api.simulator:Simulator.execute_instructions": ("instructions", "initial_state"),
+    "piquasso.api.simulator:Simulator.validate": ("program",),
+    "piquasso.api.simulator:Simulator._do_execute_instructions": ("instructions",),
+    "piquasso.api.simulator:Simulator._validate_instructions": ("instructions",),
+    "piquasso.api.utils:as_code": ("program", "simulator"),
+    "piquasso.core._blackbird:export_instructions": ("instructions",),
 }
 
 
@@ -179,6 +194,38 @@ def clause_a(ctx: Context, idx) -> None:
                       f"_unresolve_params writes self.{src_attr} back into the user's params, but that mapping holds "
                       f"`{norm(bad[0])}` instead of the object the user passed: after execution the instruction's parameter is a "
                       f"different object than before", norm(bad[0]))
+
+    # ---- the temporary overwrite itself is atomic: no exception can leave _resolve_params after its first write ------------
+    resolve = instr.methods.get("_resolve_params")
+    if resolve is None:
+        raise AnalysisError("anchor vanished: Instruction._resolve_params")
+    gr = cfgmod.build(resolve.node)
+
+    def writes_params(nd):
+        for x in cfgmod.own_nodes(nd):
+            if isinstance(x, ast.Call) and isinstance(x.func, ast.Attribute) and x.func.attr in ("update", "__setitem__", "setdefault", "pop") \
+                    and self_attr(x.func.value) in ("_params", "params"):
+                return True
+            if isinstance(x, ast.Subscript) and isinstance(x.ctx, ast.Store) and self_attr(x.value) in ("_params", "params"):
+                return True
+        return False
+
+    wnodes = [n for n in gr.nodes if n.stmt is not None and n.kind == "stmt" and writes_params(n)]
+    key = f"{resolve.qualname}|overwrite-is-atomic"
+    if not wnodes:
+        raise AnalysisError("C12a: anchor vanished: the write to self._params in _resolve_params")
+    leak = None
+    for w in wnodes:
+        starts = [m for (m, label) in gr.succ[w.id] if label != "exc"]
+        r = gr.reach(starts)
+        if cfgmod.RAISE in r:
+            leak = (w, gr.path_to(cfgmod.RAISE))
+    ctx.obligation("C12a", key, leak is None, f"{ctx.relpath(resolve.file)}:{resolve.line}")
+    if leak is not None:
+        ctx.violation("C12a", key, resolve.file, leak[0].line,
+                      f"_resolve_params can raise after it has already written `{leak[0].label()}`: the caller never reaches "
+                      f"_unresolve_params (the acquire failed), so the user's parameters stay partially resolved", leak[0].label(),
+                      path=[leak[0].label()] + leak[1])
 
     # ---- the program stack is a context-manager pair ---------------------------------------------------------------------
     prog = idx.find_class("piquasso.api.program", "Program")
@@ -444,7 +491,10 @@ def _operator_overload(fn: FuncInfo) -> bool:
 
 def clause_cd(ctx: Context, idx, reg) -> None:
     res = get_resolver(idx)
-    an = Analysis(idx, res)
+    for q in USER_PARAMS:
+        mod, _, name = q.partition(":")
+        idx.find_function(mod, name)  # anchors must exist
+    an = Analysis(idx, res, {"user_params": USER_PARAMS, "user_attrs": ("instructions",)})
     funcs = [f for f in idx.all_functions()]
     an.run(funcs)
     ctx.count("functions analysed (taint)", len(an.units))
